@@ -30,11 +30,23 @@ impl ParamHandler {
         let raw_params = DVector::zeros((count - 1) * 6);
         assert_eq!(count, initial.len());
 
-        let params = initial
+        let params: Vec<RcParams3> = initial
             .iter()
             .zip(mean_points.iter())
             .map(|(t, p)| RcParams3::from_initial(t, p))
             .collect();
+
+        // The raw parameters start from the parameters of the initial transforms, otherwise the
+        // first `compute` would overwrite them with zeros and discard the initial rotations
+        let mut raw_params = raw_params;
+        for (i, param) in params.iter().enumerate() {
+            if i != static_i {
+                let p_index = if i > static_i { i - 1 } else { i };
+                raw_params
+                    .fixed_rows_mut::<6>(p_index * 6)
+                    .copy_from(param.x());
+            }
+        }
 
         let mut item = Self {
             static_i,
